@@ -26,12 +26,12 @@ func selected(prop, key string) bool { return prop == "ALL" || keyProp[key] == p
 
 func main() {
 	out := flag.String("out", "", "output directory")
-	prop := flag.String("prop", "ALL", "C01 | C02 | C04 | C07 | C10 | ALL: which oracle keys are reported")
+	prop := flag.String("prop", "ALL", "C01 | C02 | C04 | C06 | C07 | C10 | C11 | C14 | ALL: which oracle keys are reported")
 	n := flag.Int("n", 6, "scenarios (one daemon process each)")
 	replay := flag.String("replay", "", "replay file")
 	flag.Parse()
 	switch *prop {
-	case "ALL", "C01", "C02", "C04", "C07", "C10":
+	case "ALL", "C01", "C02", "C04", "C06", "C07", "C10", "C11", "C14":
 	default:
 		fmt.Println("unknown -prop", *prop)
 		os.Exit(2)
@@ -95,6 +95,9 @@ func run(out, prop string, n int, replay string, seed uint64, tmp string) int {
 	scs := make([]*scenario, n)
 	for i := range scs {
 		scs[i] = genScenario(r, i%4 == 2) // generation is sequential: deterministic in the seed; every fourth scenario with large events
+		if i%4 == 0 {
+			addReaderLevel(r, scs[i]) // every fourth scenario with the reader-level input classes (reader.go)
+		}
 	}
 	results := make([]runResult, n)
 	var wg sync.WaitGroup
@@ -112,7 +115,7 @@ func run(out, prop string, n int, replay string, seed uint64, tmp string) int {
 
 	for i, sc := range scs {
 		res := results[i]
-		v := judge(sc, res.Output, res.Storm)
+		v := judge(sc, res.Output, res.Storm, res.Survived)
 		record(sum, prop, sc, res, v, i)
 	}
 	sum.Notes = append(sum.Notes, fmt.Sprintf("daemon built from %s in %.1fs", repoDir(), buildSecs))
@@ -136,6 +139,41 @@ func record(sum *hutil.Summary, prop string, sc *scenario, res runResult, v verd
 	sum.Dist(fmt.Sprintf("sessions_%d", len(sc.Sessions)))
 	sum.Dist(fmt.Sprintf("phases_%d", len(sc.Phases)))
 	sum.Dist("sync_" + res.Sync)
+	if sc.ReaderLevel {
+		sum.Dist("reader_level_scenario")
+		for _, l := range sc.Sshd {
+			n := len(l.text())
+			if l.Kind == "unrecognised" {
+				sum.Dist("sshd_unrecognised_long_line_with_embedded_login_records")
+			}
+			switch {
+			case n > 131072:
+				sum.Dist("sshd_record_longer_than_128k")
+			case n > 65536:
+				sum.Dist("sshd_record_longer_than_64k")
+			case n >= 8192:
+				sum.Dist("sshd_record_8k_to_64k")
+			case n >= 4095:
+				sum.Dist("sshd_record_about_4k_to_8k")
+			}
+		}
+		if last := sc.Phases[len(sc.Phases)-1]; true {
+			if len(last.SshdCuts) == 0 && len(last.Sshd) > 65536 {
+				sum.Dist("sshd_burst_in_one_write_beyond_pipe_capacity")
+			} else if len(last.SshdCuts) == 0 && len(last.Sshd) > 4096 {
+				sum.Dist("sshd_burst_in_one_write_beyond_one_page")
+			}
+			if len(last.AuditCuts) == 0 && len(last.Audit) > 65536 {
+				sum.Dist("audit_burst_in_one_write_beyond_pipe_capacity")
+			}
+		}
+		if sc.Restart != nil {
+			sum.Dist("writer_restart_mid_record_cut_" + sc.Restart.CutAt)
+			sum.Dist("writer_restart_daemon_" + map[bool]string{true: res.Restart, false: "not-reached"}[res.Restart != ""])
+		}
+	}
+	sum.Distribution["total_user_actions_compared_with_library_rendering"] += v.Rendered
+	sum.Distribution["total_user_actions_from_records_longer_than_4096_compared"] += v.RenderedLong
 	sum.Dist(fmt.Sprintf("gomaxprocs_%d", sc.GoMaxProcs))
 	sum.Dist("log_level_" + map[bool]string{true: "default", false: sc.LogLevel}[sc.LogLevel == ""])
 	if sc.Big {
@@ -285,7 +323,7 @@ func doReplay(path, prop, bin, tmp string) int {
 	const tries = 30
 	for i := 0; i < tries; i++ {
 		res := runScenario(bin, filepath.Join(tmp, fmt.Sprintf("replay%d", i)), sc)
-		v := judge(sc, res.Output, res.Storm)
+		v := judge(sc, res.Output, res.Storm, res.Survived)
 		if res.HarnessKey != "" {
 			harnessTrouble = true
 			fmt.Printf("run %d: %s: %s\n", i+1, res.HarnessKey, res.HarnessErr)
